@@ -14,8 +14,8 @@ from lib import coq_term_str as S, coq_list as L, coq_nat as N
 
 THEOREMS = ['C12_trunc_safe', 'C12_key_mismatch_miss', 'C12_key_injective', 'C12_stale_config_miss',
             'C12_used_files_changed_miss', 'C12_body_integrity', 'C12_byte_edit_miss', 'C12_read_after_write',
-            'C12_construct_spec', 'C12_history_inv', 'C12_concat_framing_refuted', 'C12_unhashable_are_objects',
-            'C12_unhashable_reapplied_refuted', 'C12_instance_ideal', 'C12_instance_rest', 'C12_example_history',
+            'C12_construct_spec', 'C12_history_inv', 'C12_cut_pickle_miss', 'C12_concat_framing_refuted', 'C12_unhashable_are_objects',
+            'C12_unhashable_reapplied_refuted', 'C12_instance_ideal', 'C12_instance_rest', 'C12_instance_prefix_fails', 'C12_example_history',
             'C12_example_history_inv']
 GEN_DEPS = ['CacheKey']
 RULE = ('real cache files of a pool of LALR grammars (imports of local files and of the bundled common.lark, hashed and '
@@ -32,7 +32,7 @@ TRUSTED_BASE = ['cache section of Lark.__init__, _bytes_digest, sha256_digest, v
                 'the theorems are about an abstract digest)',
                 'hit/miss observed by wrapping Lark._load; used files observed by wrapping lark.lark.load_grammar']
 ASSUMPTIONS = ['sha256 is idealised as a collision-free fixed-length digest (prefix code) without newline',
-               'pickle is a self-delimiting codec with non-empty output',
+               'pickle is a self-delimiting codec with non-empty output; for C12_cut_pickle_miss: unpickling fails on every strict prefix of a pickle',
                'okenv / resolution_stable: inside the class of file-system states considered, a construction depends on the file '
                'system only through the text of the files it records (violated on the implementation by F11, F16, F17)',
                'runtime_reapplied: options left out of the key are re-applied on load (violated by F15: edit_terminals, postlex.always_accept)',
